@@ -361,6 +361,26 @@ class Round:
         self.timing["placeholder_s"] = round(time.time() - t0, 2)
 
 
+_FAMILY = (("union-scalars", "union"), ("disjunction-scalars", "union"), ("dunion", "dunion"), ("disjunction-refs", "dunion"),
+           ("disjunction-top-level", "dunion"), ("disjunction-with-null", "nullable"), ("map-of", "map"), ("map-keys", "map"), ("array-of", "array"),
+           ("enum", "enum"), ("constref", "const"), ("const", "const"), ("defaults-typed", "default"), ("default", "default"),
+           ("nullable", "nullable"), ("optional", "optional"), ("cross-package", "ref"), ("ref", "ref"), ("recursive", "recursive"),
+           ("top-level-kinds", "alias"), ("alias", "alias"), ("named-collections", "named-collections"), ("identifiers", "identifiers"),
+           ("time", "time"), ("any", "any"), ("intersection", "intersection"), ("anon-struct", "anon-struct"), ("null-type", "null"),
+           ("type-list", "type-list"), ("scalar-kinds", "scalars"), ("int-kinds", "scalars"), ("scalars", "scalars"), ("string-bounds", "bounds"),
+           ("bounds", "bounds"), ("kitchen-sink", "composite"), ("collections-of-collections", "composite"))
+
+
+def family(shape):
+    """The family of a shape (what it is a shape OF): the construct part of a signature. It only depends on the shape itself,
+    so that repairing a defect in one family does not rename the signatures of the others."""
+    n = shape["name"][3:] if shape["name"].startswith("ir-") else shape["name"]
+    for prefix, fam in _FAMILY:
+        if n.startswith(prefix):
+            return fam
+    return n
+
+
 def violated(job, rec):
     """python twin of FlagLattice!Violated (TLC recomputes it in FlagLatticeTrace)."""
     v = set()
@@ -586,6 +606,7 @@ def run(ctx):
             j2 = make_job(s, "ir", c)
             spread[j2["id"]] = j2
     classes = {}
+    fail_fmt = {}
     if spread:
         rb = Round(ctx, "spread", list(spread.values()), scanner).run()
         rounds.append(rb)
@@ -594,22 +615,20 @@ def run(ctx):
             failing = []
             for s in shapes + irshapes:
                 fmts = sc.FORMATS if s["kind"] == "schema" else ("ir",)
-                if any(fails(rb, job_id(s, f, c), key) for f in fmts):
+                bad = [f for f in fmts if fails(rb, job_id(s, f, c), key)]
+                if bad:
                     failing.append(s)
+                    fail_fmt[(key, s["name"])] = bad[0]
             if not failing:
                 failing = [witness[key]["shape"]]       # needs more than the minimal configuration: keep the witness
             single = [s for s in failing if "composite" not in s["constructs"]] or failing
-            common = set(single[0]["constructs"])
-            for s in single[1:]:
-                common &= set(s["constructs"])
+            fams = sorted({family(s) for s in single})
             if key[3] != "package":
-                cc = key[3]
-            elif common:
-                cc = "+".join(sorted(common))
-            elif len(single) >= 8:
-                cc = "many-shapes"
+                cc = [key[3]]
+            elif len(fams) > 4:
+                cc = ["many-shapes"]
             else:
-                cc = single[0]["name"]
+                cc = fams          # one signature per family
             classes[key] = (cc, [s["name"] for s in failing])
 
     # ------------------------------------------------------------------ report
@@ -617,6 +636,7 @@ def run(ctx):
         return "+".join(sorted(("" if v else "!") + g.SHORT.get(p, p) for p, v in lits)) or "any-config"
 
     group_info = []
+    by_name = {s_["name"]: s_ for s_ in shapes + irshapes}
     for key in sorted(groups):
         lang, clause, cls, scope = key
         items = groups[key]
@@ -628,17 +648,27 @@ def run(ctx):
             failing_shapes = sorted({main.jobs[j]["shape"]["name"] for j, _ in items})
             lt = "any-config"
         else:
-            cc, failing_shapes = classes.get(key, (j0["shape"]["name"], [j0["shape"]["name"]]))
+            ccs, failing_shapes = classes.get(key, ([family(j0["shape"])], [j0["shape"]["name"]]))
             lt = lit_text(literals.get(key, []))
-            sig = "C02/%s/%s/%s/%s+%s" % (lang, clause, cls, lt, cc)
+            sigs = ["C02/%s/%s/%s/%s+%s" % (lang, clause, cls, lt, cc) for cc in ccs]
+            sig = sigs[0]
         rp = {"shape": j0["shape"]["name"], "format": j0["fmt"], "lang": lang, "out": j0["cfg"]["out"], "on": j0["cfg"]["on"],
               "clause": clause, "diag": cls, "signature_hint": sig, "detail": detail0,
               "input": j0.get("text") or j0["shape"].get("schemas"), "outcome": main.records[jid0]["outcome"]}
         what = "%s: %s [%s; shape %s as %s; out=%s on=%s; %d run(s); also fails on shapes %s]" % (
             clause, detail0[:260], lt, j0["shape"]["name"], j0["fmt"], ",".join(j0["cfg"]["out"]), ",".join(j0["cfg"]["on"]) or "-", len(items),
             ",".join(failing_shapes[:8]))
-        ctx.fail(sig, what, rp)
-        group_info.append({"signature": sig, "runs": len(items), "example": detail0[:300], "shapes": failing_shapes[:12]})
+        for sig_ in (sigs if clause != "silent-unsupported" else [sig]):
+            rp_ = dict(rp)
+            rp_["signature_hint"] = sig_
+            fam_ = sig_.rsplit("+", 1)[-1]
+            own = [n for n in failing_shapes if family(by_name.get(n, {"name": n})) == fam_] or failing_shapes
+            if by_name.get(own[0]) and own[0] != rp_["shape"] and clause != "silent-unsupported":
+                rp_["shape"] = own[0]
+                rp_["format"] = fail_fmt.get((key, own[0])) or ("ir" if by_name[own[0]]["kind"] == "ir" else "jsonschema")
+                rp_["out"], rp_["on"] = (minimal.get(key) or j0["cfg"])["out"], (minimal.get(key) or j0["cfg"])["on"]
+            ctx.fail(sig_, what, rp_)
+            group_info.append({"signature": sig_, "runs": len(items), "example": detail0[:300], "shapes": own[:12]})
 
     # ------------------------------------------------------------------ trace: TLC recomputes both implications
     tdir = ctx.sub("trace")
@@ -722,8 +752,10 @@ def run(ctx):
             vac.append("toolchain:" + k)
     if not any(v for k, v in unsupported.items()):
         vac.append("no run with an inexpressible construct")
-    if vac:
+    if vac and not ctx.failures:
         raise core.Inconclusive("vacuous: never exercised: %s" % vac[:12])
+    if vac:      # observed violations are never swallowed by the vacuity gate (audit class 15): they are reported, the gap is noted
+        ctx.notes.append("vacuity gate not met (%s) - reported with the violations instead of exit 2" % vac[:6])
     pairs_full = 0
     if not quick:
         for lang in g.LANGS:
